@@ -32,7 +32,7 @@ def main(argv=None):
     from vf.report import Check
 
     mod = importlib.import_module("vf.checks." + pid.lower())
-    level = getattr(mod, "LEVEL", "exploration")
+    level = getattr(mod, "META", {}).get("level", getattr(mod, "LEVEL", "exploration"))
     budget = a.budget
     if budget is None:
         b = getattr(mod, "BUDGET", {"quick": 40, "thorough": 420})
